@@ -6,7 +6,7 @@ import ast
 from typing import Dict, List, Optional, Set, Tuple
 
 from .. import oneshot
-from ..core import ct, AnalysisError, ClassInfo, FuncInfo, Repo, attr_chain, call_name, unparse, walk_no_nested
+from ..core import ct, deviates, AnalysisError, ClassInfo, FuncInfo, Repo, attr_chain, call_name, unparse, walk_no_nested
 from ..report import Ctx
 from ..skeleton import TRUE, Env, T, func_term, show
 from ..skelrules import check_skeleton, spec_from_src
@@ -526,10 +526,15 @@ def rule_prime(ctx: Ctx) -> None:
     else:
         raise AnalysisError(f"{f.where}: small-case branch not recognised")
     filt = [t for t in txt if t[1] == "return False"]
-    if any(set(t[0].split(" or ")) == {f"{n} % 2 == 0", f"{n} % 3 == 0"} for t in filt):
+    # every condition under which False is returned before the loop, however the tests are grouped (one `or`, two ifs, ...)
+    rejected = {part for t in filt for part in t[0].split(" or ")}
+    extra = rejected - {f"{n} % 2 == 0", f"{n} % 3 == 0"}
+    if {f"{n} % 2 == 0", f"{n} % 3 == 0"} <= rejected and not extra:
         ctx.ok("C11-PR", f.where, "multiples of 2 and 3 are rejected before the loop", small[-1], f)
+    elif extra:
+        raise AnalysisError(f"{f.where}: numbers are rejected before the loop under {sorted(extra)}; not recognised")
     else:
-        ctx.violation("C11-PR", f, small[-1] if small else f.node, "multiples of 2 and of 3 are not both rejected before the 6k+-1 loop (the loop never tries 2 or 3)")
+        ctx.violation("C11-PR", f, small[-1] if small else f.node, "multiples of 2 and of 3 are not both rejected before the 6k+-1 loop (the loop never tries 2 or 3)", robust=True)
         ok = False
     # start value
     starts = [st for st in pre if isinstance(st, ast.Assign) and isinstance(st.targets[0], ast.Name)]
@@ -537,7 +542,7 @@ def rule_prime(ctx: Ctx) -> None:
         raise AnalysisError(f"{f.where}: loop variable initialisation not recognised")
     i = starts[0].targets[0].id
     if unparse(starts[0].value) != "5":
-        ctx.violation("C11-PR", f, starts[0], f"trial division starts at {unparse(starts[0].value)}; the 6k+-1 candidates start at 5")
+        deviates(ctx, "C11-PR", f, starts[0], unparse(starts[0].value), ["5"], f"trial division starts at {unparse(starts[0].value)}; the 6k+-1 candidates start at 5", k=1)
         ok = False
     # bound: i*i <= n
     t = lp.test
@@ -572,16 +577,28 @@ def rule_prime(ctx: Ctx) -> None:
     tests = [st for st in lp.body if isinstance(st, ast.If)]
     steps = [st for st in lp.body if isinstance(st, ast.AugAssign)]
     if len(tests) == 1 and len(steps) == 1:
-        parts = set(unparse(tests[0].test).split(" or "))
-        if parts == {f"{n} % {i} == 0", f"{n} % ({i} + 2) == 0"} and unparse(tests[0].body[0]) == "return False":
+        from ..core import subst_names as _subst
+
+        # named candidates (low = i; high = i + 2 at the top of the round) are read through
+        body_env = {}
+        for st in lp.body:
+            if st is tests[0]:
+                break
+            if isinstance(st, ast.Assign) and len(st.targets) == 1 and isinstance(st.targets[0], ast.Name) and st.targets[0].id != i:
+                body_env[st.targets[0].id] = _subst(st.value, body_env)
+        test_txt = unparse(_subst(tests[0].test, body_env))
+        parts = set(test_txt.split(" or "))
+        want_parts = {f"{n} % {i} == 0", f"{n} % ({i} + 2) == 0"}
+        if parts == want_parts and unparse(tests[0].body[0]) == "return False":
             ctx.ok("C11-PR", f.where, "each round tries i and i + 2", tests[0], f)
         else:
-            ctx.violation("C11-PR", f, tests[0], f"a round tests `{unparse(tests[0].test)}`; the candidates of a round are i and i + 2 (6k-1 and 6k+1)")
+            deviates(ctx, "C11-PR", f, tests[0], " or ".join(sorted(parts)), [" or ".join(sorted(want_parts))],
+                     f"a round tests `{unparse(tests[0].test)}`; the candidates of a round are i and i + 2 (6k-1 and 6k+1)", k=4)
             ok = False
         if isinstance(steps[0].op, ast.Add) and unparse(steps[0].value) == "6" and unparse(steps[0].target) == i:
             ctx.ok("C11-PR", f.where, "step 6", steps[0], f)
         else:
-            ctx.violation("C11-PR", f, steps[0], f"candidates advance by `{unparse(steps[0])}`; the 6k+-1 wheel advances by 6")
+            deviates(ctx, "C11-PR", f, steps[0], unparse(steps[0]), [f"{i} += 6"], f"candidates advance by `{unparse(steps[0])}`; the 6k+-1 wheel advances by 6", k=2)
             ok = False
     else:
         raise AnalysisError(f"{f.where}: loop body not recognised")
@@ -602,10 +619,15 @@ def _prime_range_form(ctx: Ctx, f: FuncInfo, lp: ast.For) -> None:
         raise AnalysisError(f"{f.where}: small-case branch not recognised")
     ctx.ok("C11-PR", f.where, "n <= 3: prime iff n > 1", small[0], f)
     filt = [t for t in txt if t[1] == "return False"]
-    if any(set(t[0].split(" or ")) == {f"{n} % 2 == 0", f"{n} % 3 == 0"} for t in filt):
+    # every condition under which False is returned before the loop, however the tests are grouped (one `or`, two ifs, ...)
+    rejected = {part for t in filt for part in t[0].split(" or ")}
+    extra = rejected - {f"{n} % 2 == 0", f"{n} % 3 == 0"}
+    if {f"{n} % 2 == 0", f"{n} % 3 == 0"} <= rejected and not extra:
         ctx.ok("C11-PR", f.where, "multiples of 2 and 3 are rejected before the loop", small[-1], f)
+    elif extra:
+        raise AnalysisError(f"{f.where}: numbers are rejected before the loop under {sorted(extra)}; not recognised")
     else:
-        ctx.violation("C11-PR", f, small[-1] if small else f.node, "multiples of 2 and of 3 are not both rejected before the 6k+-1 loop (the loop never tries 2 or 3)")
+        ctx.violation("C11-PR", f, small[-1] if small else f.node, "multiples of 2 and of 3 are not both rejected before the 6k+-1 loop (the loop never tries 2 or 3)", robust=True)
     it = lp.iter
     if not (isinstance(it, ast.Call) and isinstance(it.func, ast.Name) and it.func.id == "range" and len(it.args) == 3 and not it.keywords and isinstance(lp.target, ast.Name)) or lp.orelse:
         raise AnalysisError(f"{f.where}: candidate range `{unparse(it)}` not recognised")
